@@ -198,7 +198,8 @@ def manager_vectors(r, n0, count):
     reqs, meta = [], {}
     n = n0
     seqs = ["honest-challenge", "final-in-success", "success-first", "success-after-final-nodata", "success-after-final-wrong", "wrong-nonce-then-success",
-            "wrong-sig-challenge-then-success", "missing-fields-then-success", "success-after-first-with-right-sig", "success-wrong-password-sig"]
+            "wrong-sig-challenge-then-success", "missing-fields-then-success", "success-after-first-with-right-sig", "success-wrong-password-sig",
+            "success-first-carrying-server-first", "success-carrying-server-first-again", "success-carrying-error", "success-carrying-garbage"] + ["random-sequence"] * 6
     for _ in range(count):
         sasl2 = r.random() < 0.5
         X = xml_sasl2 if sasl2 else xml_sasl1
@@ -233,6 +234,49 @@ def manager_vectors(r, n0, count):
             server = [X("success", sfin)]
         elif seq == "success-wrong-password-sig":
             server = [X("challenge", sv.server_first), X("challenge", sv.finals(password="other")[1]), X("success", sfin)]
+        elif seq == "success-first-carrying-server-first":
+            # <success/> right after the client-first message whose data is a well-formed server-first message: the client can compute
+            # its final message from it, but nothing has been proved
+            server = [X("success", sv.server_first)]
+        elif seq == "success-carrying-server-first-again":
+            server = [X("challenge", sv.server_first), X("success", sv.server_first)]
+        elif seq == "success-carrying-error":
+            server = [X("challenge", sv.server_first), X("success", "e=invalid-proof")]
+        elif seq == "success-carrying-garbage":
+            server = [X("challenge", sv.server_first), X("success", r.choice(["v=", "v", "x=y", "v=AAAA", ",", "v=" + b64(r.randbytes(20))]))]
+        elif seq == "random-sequence":
+            # any short sequence of server messages; the reference steps a three-state model of the exchange:
+            # 0 = client-first sent, 1 = client-final sent, 2 = a correct signature has been delivered after the client-final
+            pool = {"sf": sv.server_first, "fin": sfin, "wrongfin": sv.finals(password=pw + "x")[1], "err": "e=other-error", "none": None, "junk": "r=" + sv.nonce}
+            server, state, names, decided = [], 0, [], None
+            for _k in range(r.randint(1, 4)):
+                kind = r.choice(["challenge", "challenge", "success"])
+                dname = r.choice(list(pool))
+                if kind == "challenge" and dname == "none":
+                    dname = "junk"
+                names.append(kind[0] + ":" + dname)
+                server.append(X(kind, pool[dname]))
+                if decided is not None:
+                    continue
+                if state == 0:
+                    if kind == "challenge" and dname == "sf":
+                        state = 1
+                    else:
+                        decided = False            # success before anything was proved, or a first message the client must refuse
+                elif state == 1:
+                    if dname == "fin":
+                        state = 2
+                        if kind == "success":
+                            decided = True
+                    else:
+                        decided = False
+                elif state == 2:
+                    # after a delivered proof only <success/> can follow; what it carries is not judged
+                    decided = True if kind == "success" else "dontcare"
+            if decided is None:
+                decided = "pending"
+            seq = "random-sequence " + " ".join(names)
+            proof_delivered = decided
         reqs.append({"n": n, "op": "manager", "sasl2": sasl2, "offered": [mech], "user": user, "password": pw, "disabled": [], "preferred": "", "nonce": b64(cnonce.encode()),
                      "server": server})
         meta[n] = ("mgr", seq, proof_delivered, {"sasl2": sasl2, "mech": mech, "user": user, "password": pw, "server": server, "expected_client_final": cf})
@@ -259,7 +303,8 @@ def worker(args):
         if not o:
             continue
         stats["vectors"] += 1
-        stats["by_kind"][kind + ":" + variant] = stats["by_kind"].get(kind + ":" + variant, 0) + 1
+        bk = kind + ":" + variant.split(" ")[0]
+        stats["by_kind"][bk] = stats["by_kind"].get(bk, 0) + 1
         w = dict(w, variant=variant)
         if kind in ("scram", "plain", "ht"):
             got = [dec(x) for x in o["resp"]]
@@ -338,6 +383,15 @@ def worker(args):
             proof = expect
             w["observed"] = o
             ver = "sasl2" if w["sasl2"] else "sasl1"
+            if variant.startswith("random-sequence"):
+                stats["mgr_random_sequences"] = stats.get("mgr_random_sequences", 0) + 1
+                w["sequence"] = variant
+                variant = "random-sequence"
+                if proof in ("dontcare", "pending"):
+                    # the sequence ends before <success/>, or continues after a delivered proof in a way the statement leaves open
+                    if proof == "pending" and o["success"]:
+                        viol.append(("scram success-reported-without-success-element %s" % ver, "login reported successful although the server never sent <success/>", w))
+                    continue
             if o["success"] and not proof:
                 viol.append(("scram success-without-server-proof %s %s" % (ver, variant), "SCRAM login reported successful although the server never presented a valid signature (%s)" % variant, w))
             elif o["success"]:
